@@ -68,13 +68,13 @@ def run(tier, seed):
     windows = {}
     for c in carriers:
         b = CARRIERS[c][1] // 8
-        windows[c] = (b + 3) if tier == 'quick' else {1: 64, 2: 48, 4: 32, 8: 20}[b]
+        windows[c] = (b + 3) if tier == 'quick' else 1023   # thorough: every buffer length the crate can construct (payload window of 1023 bytes)
     by_w = {}
     for c in carriers:
         by_w.setdefault(windows[c], []).append(c)
     for w, cs in sorted(by_w.items()):
         text, names = gen(w, cs)
-        out = kani_engine.run_kani(text, names, tag='l0_%d' % w, timeout=3000 if tier == 'quick' else 14000)
+        out = kani_engine.run_kani(text, names, tag='l0_%d' % w, timeout=3000 if tier == 'quick' else 20000)
         ur.cmds.append(out['cmd'])
         ur.wall_s += out['wall_s']
         for h in names:
@@ -84,25 +84,23 @@ def run(tier, seed):
             if r['status'] == 'tool':
                 ur.tool_errors.append('l0bits harness %s (window %d bytes): %s' % (h, w, r['detail'][-1200:]))
                 continue
-            for cl in CLAUSES[kind]:
-                ob = Oblig('l0.%s.%s' % (c, cl), PROPS if kind != 'rt' else PROPS, 'kani-assert', ('Assembler::put::<%s>' if kind == 'put' else 'Parser::parse::<%s>' if kind == 'parse' else 'put+parse::<%s>') % c, cl)
-                if r['status'] == 'failed':
-                    # attribute: a clause fails if its assertion text is among the failed checks; panics/overflow -> no_panic clause
-                    fc = ' '.join(r['failed_checks'])
-                    mine = False
-                    if cl.endswith('no_panic_no_overflow'):
-                        mine = bool(re.search(r'overflow|panic|index out of bounds|unwrap|shift', fc, re.I)) or not re.search(r'assertion failed', fc)
-                    ob_hit = mine
-                    ob.failed = [r['detail'][-1500:]] if ob_hit else []
-                    ob.raw_failed_harness = True
-                ur.obligs.append(ob)
+            hit = kani_engine.failed_clauses(text, r) if r['status'] == 'failed' else set()
+            cex = None
             if r['status'] == 'failed':
-                # assertion failures: we cannot map terse output to single assert lines reliably -> mark all value clauses of the harness
-                fc = ' '.join(r['failed_checks'])
-                if re.search(r'assertion failed', fc):
-                    for ob in ur.obligs:
-                        if ob.id.startswith('l0.%s.' % c) and ob.text in CLAUSES[kind] and not ob.id.endswith('no_panic_no_overflow'):
-                            ob.failed = [r['detail'][-1500:]]
+                try:
+                    cex = kani_engine.concrete_playback(text, h, tag='l0cp')
+                except Exception:
+                    cex = None
+            for cl in CLAUSES[kind]:
+                ob = Oblig('l0.%s.%s' % (c, cl), PROPS, 'kani-assert', ('Assembler::put::<%s>' if kind == 'put' else 'Parser::parse::<%s>' if kind == 'parse' else 'put+parse::<%s>') % c, cl)
+                if r['status'] == 'failed':
+                    mine = (cl in hit) or ('#unmapped' in hit and not cl.endswith('no_panic_no_overflow')) or ('#panic' in hit and cl.endswith('no_panic_no_overflow')) \
+                        or (not hit)
+                    if mine:
+                        ob.failed = [r['detail'][-1500:]]
+                        if cex:
+                            ob.counterexample = {'kani_concrete_playback': cex, 'harness': h}
+                ur.obligs.append(ob)
         ur.functions.append({'name': 'Assembler::put', 'lo': 0, 'hi': 0, 'origin': 'src/df/assembler.rs (compiled crate)', 'path': 'df::assembler::Assembler::put'})
         ur.bounded.append('L0 put/parse carriers %s: all values, widths 1..=BITS, all bit offsets and background contents; buffer length symbolic up to %d bytes (bounded(window): locality of put/parse in the buffer beyond the window is not mechanised)' % (','.join(cs), w))
     ur.functions = [{'name': n, 'lo': 0, 'hi': 0, 'origin': 'compiled crate (Kani)', 'path': n, 'n_requires': 0, 'n_ensures': 0, 'n_loops': 1}
